@@ -253,3 +253,17 @@ class VUndocProbe(FloatProbe):
 class VUndocOperation(FloatOperation):
     def _process_logic(self, data, factor: float = 1.0):
         return FloatDataType(data.data * factor)
+
+
+class VCtxScaleWrite(FloatOperation):
+    """Return data * factor and write that value under context key 'w' (a context-writing operation WITH a parameter,
+    so that it can be swept and sliced)."""
+
+    @classmethod
+    def context_keys(cls):
+        return ["w"]
+
+    def _process_logic(self, data, factor: float):
+        CALL_LOG.append(("VCtxScaleWrite", data.data, factor))
+        self._notify_context_update("w", data.data * factor)
+        return FloatDataType(data.data * factor)
